@@ -3,8 +3,8 @@
 Runs in worker processes whose local zone is one of UTC, America/Los_Angeles,
 Australia/Lord_Howe, Asia/Kathmandu (TZ + time.tzset()).  Oracle: instants as
 integer microseconds; naive inputs converted with zoneinfo (independent of the
-astimezone() call the code under test uses), both PEP 495 readings accepted at
-gaps/folds.
+astimezone() call the code under test uses); a naive value inside a repeated hour
+means the occurrence its fold attribute names (PEP 495).
 """
 import os
 import time
@@ -71,6 +71,10 @@ def present(rng, us, zone):
     if r < 0.6:
         return TCase(from_us(us), {us}, "aware-utc")
     naive = from_us(us).astimezone(zinfo(zone)).replace(tzinfo=None)
+    # the naive value keeps the `fold` attribute of the instant it was made from: inside a repeated hour it names
+    # exactly one of the two occurrences (PEP 495), so the instant is determined
+    if len(naive_readings(naive, zone)) > 1:
+        return TCase(naive, {us}, "naive-local-in-fold")
     return TCase(naive, naive_readings(naive, zone), "naive-local")
 
 
@@ -150,8 +154,10 @@ def run(res, tier, seed, shard, nshards):
             for u, c in zip(instants, cases):
                 res.seen((zone, u, c.kind))
                 res.count(f"presented.{c.kind}")
-                if len(c.readings) > 1:
-                    res.count("presented.ambiguous_or_gap_naive")
+                if c.kind == "naive-local-in-fold":
+                    res.count("presented.naive_in_repeated_hour")
+                    if c.dt.fold:
+                        res.count("presented.naive_in_repeated_hour_second_occurrence")
             ctx = {"storage": storage, "auto_index": auto, "batch": b,
                    "inserted": [f"{c.kind}:{c.dt.isoformat()}" for c in cases]}
             rep = {"tier": tier, "seed": seed, "shard": shard, "batch": b}
@@ -228,7 +234,7 @@ def run(res, tier, seed, shard, nshards):
                         if not (Y1700 - 2 <= pu <= Y2240 + 2):
                             continue
                         rhs = present(rng, pu, zone)
-                        if rhs.kind == "naive-local":
+                        if rhs.kind.startswith("naive-local"):
                             rhs = TCase(from_us(pu, rng.choice([0, 345, -480])), {pu}, "aware-fixed")
                         for name, q, f in (
                             ("==", T == rhs.dt, lambda a: a == pu), ("!=", T != rhs.dt, lambda a: a != pu),
@@ -313,8 +319,8 @@ def run(res, tier, seed, shard, nshards):
                     db.update(TagQuery().i.exists(), time=shift)
                     exp = [{u + delta} for u in stored2]
                     if tzs == "naive-local":
-                        # a naive value means local time: inside a DST fold either reading is admissible
-                        exp = [naive_readings(from_us(u + delta).astimezone(zinfo(zone)).replace(tzinfo=None), zone) for u in stored2]
+                        # a naive value means local time; inside a repeated hour its fold attribute (kept from the
+                        # instant it was made from) names the occurrence, so the instant is determined
                         res.count("update_time_callable_returning_naive")
                     stored3 = check_returned(db.all(sorted=False), exp, "all() after update(time=callable)", dict(ctx, delta_us=delta))
                     if stored3 is None:
@@ -373,7 +379,8 @@ def finalize(res, tier):
     res.require("windows.index")
     res.require("time_given_by_assignment")
     res.require("windows.scan")
-    res.require("presented.ambiguous_or_gap_naive")
+    res.require("presented.naive_in_repeated_hour")
+    res.require("presented.naive_in_repeated_hour_second_occurrence")
     res.require("sorted_checks_with_ties")
     res.require("reopens")
 
